@@ -363,7 +363,7 @@ func init() {
 			b := strArg(m, a[0])
 			return cStr(fmt.Sprintf("%s#%d", b, m.seq(b)))
 		},
-		"Goroutines": func(m *M, fn *ssa.Function, a []Value) Value { return cI(len(m.sched.pending)) },
+		"Goroutines": func(m *M, fn *ssa.Function, a []Value) Value { return cI(m.sched.unfinished()) },
 		"IsConcrete": func(m *M, fn *ssa.Function, a []Value) Value { return cBool(boolArg(m, a[0]).conc) },
 	}
 }
@@ -500,6 +500,7 @@ func init() {
 			if w.n < 0 {
 				panic(goPanic{msg: "sync: negative WaitGroup counter"})
 			}
+			w.vc = joinVC(w.vc.clone(), m.sched.cur.release())
 			return nil
 		},
 		"(*sync.WaitGroup).Wait": func(m *M, fn *ssa.Function, a []Value) Value { m.wait(m.sched.wg(a[0].(Ptr))); return nil },
@@ -516,11 +517,13 @@ func init() {
 			// Once{done atomic.Uint32; m Mutex}: use a side table keyed by object
 			key := fmt.Sprintf("once:%d%v", p.obj.id, p.path)
 			if _, done := m.lazyMemo[key]; done {
+				m.syncAcquire(key)
 				return nil
 			}
 			m.lazyMemo[key] = cBool(true)
 			cl := m.force(a[1]).(Closure)
 			m.callImpl(cl.fn, nil, cl.fv)
+			m.syncRelease(key)
 			return nil
 		},
 		"(*sync.Map).Load": func(m *M, fn *ssa.Function, a []Value) Value {
